@@ -80,7 +80,9 @@ class Env:
         self.default_typing = lambda name, value, info: (
             (value.get("__tn") or value.get("__typename")) if isinstance(value, dict) else None) == name
         self.typing_hook = {"fn": self.default_typing}
-        if sc.get("typing") == "is_type_of":
+        if sc.get("incremental"):
+            self.schema = g2.build(self.m, use_out_names=self.out_names, incremental=True)
+        elif sc.get("typing") == "is_type_of":
             self.schema = g2.build(self.m, use_out_names=self.out_names, is_type_of=lambda name: (
                 lambda value, info: self.typing_hook["fn"](name, value, info)))
         elif sc["schema_mode"] == "sdl":
